@@ -2,9 +2,22 @@
 # usage: ./run.sh <Cxx> [quick|thorough]
 # Decides one property on /repo's current working tree (static analysis only:
 # the tree is loaded and type-checked, never built or executed).
+#   quick:    every rule of the property.
+#   thorough: the same rules, then the self-validation of this property's check: its committed mutants,
+#             seeded breakage and behaviour-preserving refactors are applied to scratch copies (outside /repo
+#             and /verif, removed afterwards) and must be reported / stay silent.  Self-validation never
+#             changes the verdict about /repo; it is recorded in the evidence and printed as SELF-CHECK lines.
 cd "$(dirname "$0")"
 prop="$1"; tier="${2:-${VERIF_TIER:-quick}}"
 if [ ! -x bin/amverif ] || [ -n "$(find checker -newer bin/amverif -name '*.go' 2>/dev/null | head -1)" ]; then
   ./setup.sh >/dev/null || { echo "run.sh: cannot build the checker" >&2; exit 2; }
 fi
-exec bin/amverif check "$prop" "$tier"
+if [ "$tier" != "thorough" ]; then
+  exec bin/amverif check "$prop" "$tier"
+fi
+bin/amverif check "$prop" thorough
+rc=$?
+if [ $rc -eq 0 ] && command -v python3 >/dev/null 2>&1 && command -v rsync >/dev/null 2>&1 && command -v patch >/dev/null 2>&1; then
+  python3 tools/selfcheck.py "$prop" "${AMVERIF_OUT:-evidence}" || echo "SELF-CHECK $prop: the scratch machinery could not evaluate every variant (verdict about /repo unaffected)"
+fi
+exit $rc
